@@ -2411,7 +2411,22 @@ func isPtrSrc(t *itype) bool {
 
 func isSendChan(t *itype) bool {
 	rt := t.TypeOf()
-	return rt.Kind() == reflect.Chan && rt.ChanDir() == reflect.SendDir
+	return rt != nil && rt.Kind() == reflect.Chan && rt.ChanDir() == reflect.SendDir
+}
+
+// isRangeable returns true if a value of type t can be ranged over.
+func isRangeable(t *itype) bool {
+	if t.cat == nilT {
+		return false
+	}
+	switch rt := t.TypeOf(); rt.Kind() {
+	case reflect.Array, reflect.Chan, reflect.Func, reflect.Map, reflect.Slice, reflect.String:
+		return true
+	case reflect.Ptr:
+		return rt.Elem().Kind() == reflect.Array
+	default:
+		return isInt(rt)
+	}
 }
 
 func isArray(t *itype) bool {
